@@ -173,7 +173,7 @@ def file_strategy(tier):
         mods = [link_like_strategy('modification', 'M%d-%s' % (i, nm)) for i, nm in enumerate(names['mods'])]
         links = [link_like_strategy('link') for _ in range(names['nlinks'])]
         others = [st.fixed_dictionaries({'kind': st.just('macros'),
-                                         'items': st.lists(st.tuples(st.sampled_from(['m1', 'm2', 'long_name']),
+                                         'items': st.lists(st.tuples(st.sampled_from(['m1', 'm2', 'long_name', 'm1-x', 'fc.k', 'm1']),
                                                                      st.sampled_from(['P1', '0.33', 'X'])).map(list), min_size=1, max_size=2)})
                   for _ in range(names['nmacros'])]
         others += [st.fixed_dictionaries({'kind': st.just('citations'), 'keys': st.lists(st.sampled_from(['Martini3', 'ref2']), min_size=1, max_size=2)})
